@@ -39,6 +39,10 @@ class WorkerTmp:
             os.close(fd)
             raise
 
+        # the arbiter compares the mtime with time.monotonic() while a new
+        # file carries the wall-clock time: start the timeout clock now
+        self.notify()
+
     def notify(self):
         new_time = time.monotonic()
         os.utime(self._tmp.fileno(), (new_time, new_time))
